@@ -151,3 +151,18 @@ def _read_line(e, c, a):
 @model(r'BufReader::<.*>::new|std::io::BufReader::<.*>::new|BufWriter::<.*>::new|std::io::BufWriter::<.*>::new')
 def _bufreader_new(e, c, a):
     return a[0]
+
+
+@model(r'<.* as (?:std::io::)?Read>::read|std::io::Read::read', 'io::Read::read (contract: may return fewer bytes than requested; every count explored)')
+def _read(e, c, a):
+    r = the_reader(a[0])
+    cells = seq_cells(a[1])
+    if reader_fault(r):
+        return err(io_error('Other'))
+    avail = min(len(cells), len(r.data) - r.pos)
+    if avail <= 0:
+        return ok(usize(0))
+    k = 1 + e.choose(avail)         # a reader may deliver any 1..=avail bytes per call
+    for cl in cells[:k]:
+        cl.v = r.data[r.pos]; r.pos += 1
+    return ok(usize(k))
